@@ -275,7 +275,7 @@ Definition run (op : string) (args : list string) : string :=
       with_tx w e (fun t => out3 ("OK:" +++ text_bytes (json_of (ser_tx t)) +++ ";" +++ text_bytes (json_value_of (ser_tx t))) "-" "-")
   | "tx.to_cbor", [w; e] => with_tx w e (fun t => out3 ("OK:" +++ show_bytes (cbor_of (ser_tx t))) "-" "-")
   | "txin.json", [w; e; ix] =>
-      with_txin w e ix (fun i => out3 ("OK:" +++ text_bytes (json_of (ser_txin i)) +++ ";" +++ text_bytes (json_value_of (ser_txin i))) "-" "-")
+      with_txin w e ix (fun i => out3 ("OK:" +++ text_bytes (json_pretty 0 (ser_txin i)) +++ ";" +++ text_bytes (json_value_of (ser_txin i))) "-" "-")
   | "txin.to_cbor", [w; e; ix] => with_txin w e ix (fun i => out3 ("OK:" +++ show_bytes (cbor_of (ser_txin i))) "-" "-")
   | "tx.de_json", [a] => match tree_arg a with Some c => out3 (show_de_tx (de_tx Json c)) "-" "-" | None => "BADARG" end
   | "tx.de_cbor", [a] => match tree_arg a with Some c => out3 (show_de_tx (de_tx Cbor c)) "-" "-" | None => "BADARG" end
